@@ -33,6 +33,7 @@ type C03Scenario struct {
 	Commits []Commit `json:"commits"`
 	DupRun  bool     `json:"dup_names"` // rule names may repeat inside one file: weaker oracle
 	Strict  bool     `json:"strict"`
+	Branch  string   `json:"branch,omitempty"` // name of the branch under review
 	// bookkeeping carried with the scenario so that the oracle does not have to re-derive it
 	Evaluations []Evaluation `json:"evaluations"`
 }
@@ -229,7 +230,7 @@ func drawC03(rt *rapid.T) C03Scenario {
 	g := &gen{rt: rt}
 	g.dup = g.pick("dup", 8) == 0
 	g.strict = g.pick("strict", 2) == 0
-	sc := C03Scenario{DupRun: g.dup, Strict: g.strict, Init: Tree{}}
+	sc := C03Scenario{DupRun: g.dup, Strict: g.strict, Init: Tree{}, Branch: BranchNames[g.pick("branch", len(BranchNames))]}
 	// initial repository
 	nf := 1 + g.pick("ninit", 3)
 	for i := 0; i < nf; i++ {
@@ -659,7 +660,8 @@ func runC03(t *testing.T, sc C03Scenario, record bool) *detsim.Outcome {
 	}
 	must(repo.WriteTree(sc.Init))
 	must(repo.CommitAll("initial"))
-	_, err = repo.Git("checkout", "-q", "-b", "feature")
+	repo.Branch = sc.Branch
+	_, err = repo.Git("checkout", "-q", "-b", repo.branch())
 	must(err)
 
 	digest := fnv.New64a()
